@@ -107,6 +107,9 @@ pub struct SDriver<'a, 'c> {
     pub failed: Option<String>,
     pub saw_end: bool,
     pub c18: bool,
+    /// C03: a full buffer without progress is a legal outcome (no stuck detection in the stream parser).
+    pub allow_stuck: bool,
+    pub stuck: bool,
 }
 
 impl<'a, 'c> SDriver<'a, 'c> {
@@ -118,8 +121,12 @@ impl<'a, 'c> SDriver<'a, 'c> {
             taken: vec![0; streams.len()],
             out_drained: Vec::new(),
             all_replies: model::concat_replies(&m.replies),
-            style, failed: None, saw_end: false, c18: false,
+            style, failed: None, saw_end: false, c18: false, allow_stuck: false, stuck: false,
         }
+    }
+
+    pub fn total_out_pub(&self) -> Vec<u8> {
+        self.total_out()
     }
 
     fn total_out(&self) -> Vec<u8> {
@@ -318,8 +325,10 @@ impl<'a, 'c> SDriver<'a, 'c> {
                 // raw region fills the buffer: only parsing can free it
                 let dl = cx_dest(cx);
                 let r = self.feed_parse(cx, Some(dl), oracle)?;
-                if !r.2 && self.p.input_buffer().is_empty() {
+                self.p.compress();
+                if !r.2 && !r.1 && self.p.input_buffer().is_empty() && dl > 0 && self.failed.is_none() {
                     // nothing can move: a unit larger than the buffer (stream parser has no stuck detection)
+                    if self.allow_stuck { self.stuck = true; }
                     return Ok((0, r.1, false));
                 }
                 return Ok(r);
@@ -381,9 +390,23 @@ impl<'a, 'c> SDriver<'a, 'c> {
                 self.consume(cx, sb);
                 return Ok(());
             }
-            if self.failed.is_some() { return Ok(()); }
-            if !progress && self.pos >= self.cap { idle += 1; } else { idle = 0; }
-            if idle > 12 { return Ok(()); }
+            if self.failed.is_some() || self.stuck { return Ok(()); }
+            if !progress && self.pos >= self.cap {
+                // decisive settle step: with everything fed, one parse into the (emptied, compacted)
+                // internal buffer processes all remaining raw data up to a hold
+                let sb = self.p.stream_buffer().len();
+                self.consume(cx, sb);
+                self.p.compress();
+                let (n, end2, prog2) = self.feed_parse(cx, None, oracle)?;
+                if end2 || self.saw_end {
+                    let sb = self.p.stream_buffer().len();
+                    self.consume(cx, sb);
+                    return Ok(());
+                }
+                if self.failed.is_some() { return Ok(()); }
+                if n == 0 && !prog2 { idle += 1; } else { idle = 0; }
+                if idle >= 2 { return Ok(()); }
+            }
             if steps > self.wire.len() * 4 + 200 { vfail!("hang", "stream::Parser", "no progress after {steps} caller actions"); }
         }
     }
@@ -398,11 +421,19 @@ impl<'a, 'c> SDriver<'a, 'c> {
             self.p.compress();
             let use_dest = self.p.stream_buffer().is_empty() && cx.ch.chance(1, 2);
             let dl = if use_dest { Some(cx.ch.range(1, 4096)) } else { None };
+            let can_feed = !self.p.input_buffer().is_empty() && self.pos < self.cap;
             let (n, _end, progress) = self.feed_parse(cx, dl, oracle)?;
             if self.failed.is_some() { idle += 1; continue; }
-            if progress || n > 0 { idle = 0; } else { idle += 1; }
+            if progress || n > 0 { idle = 0; } else if !can_feed { idle += 1; }
             steps += 1;
             if steps > self.wire.len() * 4 + 200 { vfail!("hang", "stream::Parser", "quiescence not reached after {steps} steps"); }
+        }
+        if self.pos < self.cap && self.failed.is_none() {
+            if self.allow_stuck {
+                self.stuck = true;
+            } else {
+                vfail!("hang", "stream::Parser", "parser stopped consuming input at {} of {} bytes with its buffer full", self.pos, self.cap);
+            }
         }
         Ok(())
     }
